@@ -412,7 +412,9 @@ class Interpreter:
             self.row_history.save_row(tablename, nickname, obj._values)
         # the re-saved rows belong to earlier iterations: their nickname
         # ordinals are not "local" to the first iteration of this run
-        self.row_history.local_counters.update(self.row_history.nickname_counters)
+        self.row_history.local_nickname_counters = dict(
+            self.row_history.nickname_counters
+        )
 
     def execute(self):
         RowHistoryCV.set(self.row_history)
@@ -596,11 +598,8 @@ class RuntimeContext:
                     tablename, fieldvalue._tablename, fieldname
                 )
         history_tables = self.interpreter.tables_to_keep_history_for
-        should_save: bool = (
-            (tablename in history_tables)
-            or (nickname in history_tables)
-            or SAVE_EVERYTHING
-        )
+        # history_tables holds table names (nicknames are resolved up front)
+        should_save: bool = (tablename in history_tables) or SAVE_EVERYTHING
         if should_save:
             self.interpreter.row_history.save_row(tablename, nickname, row)
 
